@@ -50,7 +50,7 @@ def exact_history(rnd, label, families):
         nested = True
     elif fam == "fourier":
         t, aw = gl.rnd_type_weights(rnd, d)
-        depth = rnd.randint(1, {1: 3, 2: 2, 3: 1}[d])
+        depth = rnd.randint(1, {1: 3, 2: 2, 3: 2}[d])
         L.append("make fourier %d %d %d %s %s %s" % (d, outs, depth, t, gl.ivec(aw), gl.ivec(gl.rnd_limits(rnd, d, 0, 2, 0.7))))
         nested = True
         rule = "fourier"
